@@ -232,6 +232,8 @@ func (u upDesc) answer(req *dns.Msg, token int) *dns.Msg {
 		ip := net.ParseIP("2001:db8:ffff::")
 		copy(ip[12:], tok[:])
 		resp.Answer = append(resp.Answer, &dns.AAAA{Hdr: hdr, AAAA: ip})
+	case dns.TypeCAA:
+		resp.Answer = append(resp.Answer, &dns.CAA{Hdr: hdr, Tag: "issue", Value: fmt.Sprintf("tok=%d", token)})
 	default:
 		hdr.Rrtype = dns.TypeTXT
 		resp.Answer = append(resp.Answer, &dns.TXT{Hdr: hdr, Txt: []string{fmt.Sprintf("tok=%d", token)}})
@@ -260,6 +262,11 @@ func tokenOf(resp *dns.Msg) int {
 		case *dns.TXT:
 			var t int
 			if _, err := fmt.Sscanf(strings.Join(v.Txt, ""), "tok=%d", &t); err == nil {
+				return t
+			}
+		case *dns.CAA:
+			var t int
+			if _, err := fmt.Sscanf(v.Value, "tok=%d", &t); err == nil {
 				return t
 			}
 		}
@@ -888,6 +895,14 @@ func genGeo(rng *rand.Rand) (g geoTab) {
 		}
 	}
 	badGeo := rng.IntN(12) == 0
+	// Per case and family: either the fixed pool, or a structured pool of
+	// neighbouring subnets (see siblingPool).
+	pools := map[int][]string{4: geo4, 6: geo6}
+	for _, fam := range []int{4, 6} {
+		if rng.IntN(2) == 0 {
+			pools[fam] = prefixStrings(siblingPool(rng, fam))
+		}
+	}
 	for c := 0; c < 3; c++ {
 		for sd := 0; sd < 2; sd++ {
 			for as := 0; as < 3; as++ {
@@ -896,21 +911,13 @@ func genGeo(rng *rand.Rand) (g geoTab) {
 						continue
 					}
 					k := subKey{Loc: locIdx{c, sd, as}, Fam: fam}
-					pool := geo4
-					if fam == 6 {
-						pool = geo6
-					}
+					pool := pools[fam]
 					switch {
 					case badGeo && rng.IntN(6) == 0:
 						g.Sub[k] = subVal{Err: true}
 					case badGeo && rng.IntN(6) == 0:
 						// A database answering with the other family.
-						if fam == 6 {
-							pool = geo4
-						} else {
-							pool = geo6
-						}
-						g.Sub[k] = subVal{P: netip.MustParsePrefix(pick(rng, pool))}
+						g.Sub[k] = subVal{P: netip.MustParsePrefix(pick(rng, pools[10-fam]))}
 					default:
 						// Few distinct values, so that different locations share a subnet.
 						g.Sub[k] = subVal{P: netip.MustParsePrefix(pool[rng.IntN(1+rng.IntN(len(pool)))])}
@@ -921,6 +928,301 @@ func genGeo(rng *rand.Rand) (g geoTab) {
 	}
 
 	return g
+}
+
+// ---------------------------------------------------------------------------
+// Structured pools of GeoIP subnets.
+//
+// MaxMind networks have arbitrary lengths, so the subnets GeoIP assigns to
+// countries/ASNs are not byte-aligned in general, and two locations can get
+// subnets that are close neighbours.  The pools below are built so that every
+// way of looking at only a part of a subnet (leading bytes, the address without
+// the length, the length rounded to bytes, the first half of an IPv6 address,
+// ...) conflates two members.
+
+func famBits(fam int) int {
+	if fam == 4 {
+		return 32
+	}
+
+	return 128
+}
+
+// flipBit returns a with bit i (0 = most significant) inverted.
+func flipBit(a netip.Addr, i int) netip.Addr {
+	b := a.AsSlice()
+	b[i/8] ^= 0x80 >> (i % 8)
+	r, _ := netip.AddrFromSlice(b)
+
+	return r
+}
+
+// stemAddr returns a random address of the family masked to l bits.
+func stemAddr(rng *rand.Rand, fam, l int) netip.Addr {
+	b := make([]byte, famBits(fam)/8)
+	mode := rng.IntN(4)
+	for i := range b {
+		switch mode {
+		case 0:
+			b[i] = 0xff
+		case 1:
+			b[i] = []byte{0xa5, 0x5a}[i%2]
+		default:
+			b[i] = byte(rng.IntN(256))
+		}
+	}
+	if b[0] == 0 {
+		b[0] = 0x40
+	}
+	a, _ := netip.AddrFromSlice(b)
+
+	return netip.PrefixFrom(a, l).Masked().Addr()
+}
+
+// genLen picks a prefix length in [1, max] with emphasis on byte boundaries and
+// their neighbours.
+func genLen(rng *rand.Rand, max int) int {
+	l := 8*rng.IntN(max/8+1) + []int{0, 0, 1, 4, 7, rng.IntN(8)}[rng.IntN(6)]
+
+	return min(max, l+1)
+}
+
+// interestingBits returns the bit positions of a prefix of length l at which
+// two neighbouring subnets are most likely to be conflated: the first bit, the
+// last bit, the first bit of the last (possibly partial) byte, the last bit of
+// the last complete byte, the middle, and the bytes next to the 32- and 64-bit
+// boundaries.
+func interestingBits(l int) (is []int) {
+	cand := []int{0, l - 1, 8 * ((l - 1) / 8), 8*((l-1)/8) - 1, 8 * (l / 8), l / 2, 31, 32, 63, 64}
+	seen := map[int]bool{}
+	for _, i := range cand {
+		if i >= 0 && i < l && !seen[i] {
+			seen[i] = true
+			is = append(is, i)
+		}
+	}
+
+	return is
+}
+
+// interestingLens returns lengths above l: the next one, the last one of the
+// same byte, the next byte boundary and its successor, the maximum.
+func interestingLens(l, max int) (ls []int) {
+	nb := 8 * (l/8 + 1)
+	seen := map[int]bool{}
+	for _, x := range []int{l + 1, nb - 1, nb, nb + 1, nb + 8, max} {
+		if x > l && x <= max && !seen[x] {
+			seen[x] = true
+			ls = append(ls, x)
+		}
+	}
+
+	return ls
+}
+
+// siblingPool returns 3-7 distinct masked subnets of one family around a
+// random stem: the stem at several lengths (same address, different length,
+// both inside one byte and across byte boundaries), and same-length siblings
+// that differ from it in exactly one bit.  The order is shuffled.
+func siblingPool(rng *rand.Rand, fam int) (ps []netip.Prefix) {
+	max := famBits(fam)
+	l0 := genLen(rng, max)
+	stem := stemAddr(rng, fam, l0)
+	lens := []int{l0}
+	if more := interestingLens(l0, max); len(more) > 0 {
+		for k := rng.IntN(3); k > 0; k-- {
+			lens = append(lens, pick(rng, more))
+		}
+	}
+	seen := map[netip.Prefix]bool{}
+	add := func(p netip.Prefix) {
+		if !seen[p] {
+			seen[p] = true
+			ps = append(ps, p)
+		}
+	}
+	for _, l := range lens {
+		add(netip.PrefixFrom(stem, l))
+		bits := interestingBits(l)
+		for k := 1 + rng.IntN(2); k > 0; k-- {
+			i := pick(rng, bits)
+			if rng.IntN(4) == 0 {
+				i = rng.IntN(l)
+			}
+			add(netip.PrefixFrom(flipBit(stem, i), l))
+		}
+	}
+	rng.Shuffle(len(ps), func(i, j int) { ps[i], ps[j] = ps[j], ps[i] })
+
+	return ps
+}
+
+func prefixStrings(ps []netip.Prefix) (ss []string) {
+	for _, p := range ps {
+		ss = append(ss, p.String())
+	}
+
+	return ss
+}
+
+// genPartitionScenario generates histories aimed at the partition of scoped
+// answers: every client and every client-supplied ECS address has its own
+// location, the locations are mapped to subnets of one sibling pool per
+// family, few questions, and an upstream that mostly scopes its answers.
+func genPartitionScenario(rng *rand.Rand) (sc *scenario) {
+	g := geoTab{Data: map[netip.Addr]locIdx{}, Sub: map[subKey]subVal{}}
+	var locs []locIdx
+	for c := 0; c < 3; c++ {
+		for as := 0; as < 3; as++ {
+			for sd := 0; sd < 2; sd++ {
+				locs = append(locs, locIdx{c, sd, as})
+			}
+		}
+	}
+	rng.Shuffle(len(locs), func(i, j int) { locs[i], locs[j] = locs[j], locs[i] })
+	pools := map[int][]netip.Prefix{4: siblingPool(rng, 4), 6: siblingPool(rng, 6)}
+	for _, l := range locs {
+		for _, fam := range []int{4, 6} {
+			if rng.IntN(8) != 0 {
+				g.Sub[subKey{Loc: l, Fam: fam}] = subVal{P: pick(rng, pools[fam])}
+			}
+		}
+	}
+	nCl := 2 + rng.IntN(3)
+	var cls []netip.Addr
+	var ecsP []netip.Prefix
+	for _, s := range clients4[:min(nCl, len(clients4))] {
+		cls = append(cls, netip.MustParseAddr(s))
+	}
+	for _, s := range clients6[:min(nCl-1, len(clients6))] {
+		cls = append(cls, netip.MustParseAddr(s))
+	}
+	for _, s := range []string{ecs4[0], ecs4[2], ecs4[4], ecs6[0], ecs6[2]} {
+		ecsP = append(ecsP, netip.MustParsePrefix(s))
+	}
+	k := 0
+	for _, a := range cls {
+		g.Data[a] = locs[k%len(locs)]
+		k++
+	}
+	for _, p := range ecsP {
+		g.Data[p.Addr()] = locs[k%len(locs)]
+		k++
+	}
+	sc = &scenario{Geo: g}
+	n := 4 + rng.IntN(12)
+	nHosts := 1 + rng.IntN(2)
+	qtypes := []uint16{dns.TypeA, dns.TypeA, dns.TypeA, dns.TypeAAAA, dns.TypeCAA}
+	for i := 0; i < n; i++ {
+		rd := reqDesc{Remote: pick(rng, cls), Host: rng.IntN(nHosts), QType: pick(rng, qtypes), QClass: dns.ClassINET}
+		switch rng.IntN(6) {
+		case 0:
+			// no OPT RR
+		case 1, 2:
+			rd.RRs = []optRR{{DO: rng.IntN(8) == 0}}
+		case 3:
+			p := "0.0.0.0/0"
+			if rng.IntN(2) == 0 {
+				p = "::/0"
+			}
+			rd.RRs = []optRR{{Opts: []optDesc{ecsOptOf(netip.MustParsePrefix(p), true, 0)}}}
+		default:
+			rd.RRs = []optRR{{Opts: []optDesc{ecsOptOf(pick(rng, ecsP), true, 0)}}}
+		}
+		rd.Up = upDesc{HasOPT: true}
+		e := ecsOptOf(pick(rng, pools[4+2*rng.IntN(2)]), true, 0)
+		if rng.IntN(8) != 0 {
+			e.Scope = uint8(1 + rng.IntN(int(e.Mask)+8))
+		}
+		rd.Up.Opts = []optDesc{e}
+		sc.Reqs = append(sc.Reqs, rd)
+	}
+
+	return sc
+}
+
+// pairScenario is the history "A asks, B asks, A asks, B asks" for one
+// question, where GeoIP maps client A to subnet pa and client B to subnet pb
+// and the upstream scopes every answer.
+func pairScenario(pa, pb netip.Prefix, qtype uint16) (sc *scenario) {
+	ca, cb := netip.MustParseAddr(clients4[0]), netip.MustParseAddr(clients4[2])
+	if pa.Addr().Is6() {
+		ca = netip.MustParseAddr(clients6[0])
+	}
+	if pb.Addr().Is6() {
+		cb = netip.MustParseAddr(clients6[2])
+	}
+	la, lb := locIdx{Ctry: 1, ASN: 1}, locIdx{Ctry: 2, ASN: 2}
+	g := geoTab{
+		Data: map[netip.Addr]locIdx{ca: la, cb: lb},
+		Sub:  map[subKey]subVal{{Loc: la, Fam: famOf(pa.Addr())}: {P: pa}, {Loc: lb, Fam: famOf(pb.Addr())}: {P: pb}},
+	}
+	sc = &scenario{Geo: g}
+	for _, c := range []struct {
+		cl netip.Addr
+		p  netip.Prefix
+	}{{ca, pa}, {cb, pb}, {ca, pa}, {cb, pb}} {
+		sc.Reqs = append(sc.Reqs, reqDesc{Remote: c.cl, QType: qtype, QClass: dns.ClassINET,
+			Up: upDesc{HasOPT: true, Opts: []optDesc{ecsOptOf(c.p, true, uint8(max(1, c.p.Bits())))}}})
+	}
+
+	return sc
+}
+
+// prefixSweep walks over all prefix lengths of both families and runs
+// pairScenario for the subnet of that length and (a) its same-length siblings
+// differing in one bit, (b) the same address at greater lengths.  The quick
+// tier takes the interesting bits/lengths, the thorough tier all of them.
+func prefixSweep(r *hlib.Result, m *hlib.Model, all bool) {
+	for _, fam := range []int{4, 6} {
+		max := famBits(fam)
+		b := make([]byte, max/8)
+		for i := range b {
+			b[i] = []byte{0xa5, 0x5a, 0xc3}[i%3]
+		}
+		pattern, _ := netip.AddrFromSlice(b)
+		for l := 1; l <= max; l++ {
+			p := netip.PrefixFrom(pattern, l).Masked()
+			bits, lens := interestingBits(l), interestingLens(l, max)
+			if all {
+				bits, lens = nil, nil
+				for i := 0; i < l; i++ {
+					bits = append(bits, i)
+				}
+				for x := l + 1; x <= max; x++ {
+					lens = append(lens, x)
+				}
+			}
+			for _, i := range bits {
+				runCase(r, m, pairScenario(p, netip.PrefixFrom(flipBit(p.Addr(), i), l), dns.TypeA), 100, 100, true)
+				r.Count("sweep.same_length_one_bit")
+				if l%8 != 0 && i >= 8*(l/8) {
+					r.Count("sweep.differ_in_partial_byte")
+				}
+			}
+			for _, x := range lens {
+				runCase(r, m, pairScenario(p, netip.PrefixFrom(p.Addr(), x), dns.TypeA), 100, 100, true)
+				r.Count("sweep.same_address_other_length")
+			}
+			// The zero prefix next to a real subnet whose address is all zeros
+			// up to bit l-1 is covered by (b) with the stem 0; add the pair
+			// (zero prefix, p) as well.
+			runCase(r, m, pairScenario(netip.PrefixFrom(netip.PrefixFrom(pattern, 0).Masked().Addr(), 0), p, dns.TypeA), 100, 100, true)
+		}
+	}
+	// Questions that differ only in the high byte of the type.
+	p4 := netip.MustParsePrefix("100.64.0.0/12")
+	for _, qt := range []uint16{dns.TypeA, dns.TypeCAA} {
+		sc := pairScenario(p4, p4, qt)
+		other := pairScenario(p4, p4, qt^0x100)
+		sc.Reqs = append(sc.Reqs, other.Reqs...)
+		runCase(r, m, sc, 100, 100, true)
+	}
+	r.Count("sweep.done")
+	if all {
+		r.Notes = append(r.Notes, "exhaustive: for every prefix length l of IPv4 and IPv6, the pair history for every one-bit sibling (all l bit positions) "+
+			"and for the same address at every greater length")
+	}
 }
 
 func ecsOptOf(p netip.Prefix, wireForm bool, scope uint8) optDesc {
@@ -1086,6 +1388,11 @@ func genReq(rng *rand.Rand, nClients, nHosts int) (rd reqDesc) {
 		rd.QType = dns.TypeAAAA
 	case 1:
 		rd.QType = dns.TypeTXT
+	case 2:
+		if rng.IntN(2) == 0 {
+			// Same low byte as A.
+			rd.QType = dns.TypeCAA
+		}
 	}
 	rd.QClass = dns.ClassINET
 	switch r := rng.IntN(24); {
@@ -1152,6 +1459,54 @@ func observedLines(os []obs) (s []string) {
 	return s
 }
 
+// shrinkGeo drops the GeoIP table entries that are not needed for reqs to
+// violate the property with signature sig.
+func shrinkGeo(g geoTab, reqs []reqDesc, ecsCount, noECSCount int, sig string) (small geoTab) {
+	type ent struct {
+		a     netip.Addr
+		l     locIdx
+		k     subKey
+		v     subVal
+		isSub bool
+	}
+	var ents []ent
+	var ds, ss []string
+	byText := map[string]ent{}
+	for a, l := range g.Data {
+		t := a.String()
+		ds, byText[t] = append(ds, t), ent{a: a, l: l}
+	}
+	for k, v := range g.Sub {
+		t := fmt.Sprintf("%d %d %d %d", k.Loc.Ctry, k.Loc.Subdiv, k.Loc.ASN, k.Fam)
+		ss, byText[t] = append(ss, t), ent{k: k, v: v, isSub: true}
+	}
+	// Deterministic order.
+	sortStrings(ds)
+	sortStrings(ss)
+	for _, t := range append(ds, ss...) {
+		ents = append(ents, byText[t])
+	}
+	build := func(sub []ent) (t geoTab) {
+		t = geoTab{Data: map[netip.Addr]locIdx{}, Sub: map[subKey]subVal{}}
+		for _, e := range sub {
+			if e.isSub {
+				t.Sub[e.k] = e.v
+			} else {
+				t.Data[e.a] = e.l
+			}
+		}
+
+		return t
+	}
+	kept := hlib.Shrink(ents, func(sub []ent) bool {
+		s2 := &scenario{Geo: build(sub), Reqs: reqs}
+
+		return hasSig(oracle(s2, runScenario(s2, ecsCount, noECSCount), func(string) {}), sig)
+	})
+
+	return build(kept)
+}
+
 // runCase runs one scenario: real code, oracle, model comparison.
 func runCase(r *hlib.Result, m *hlib.Model, sc *scenario, ecsCount, noECSCount int, withModel bool) {
 	os := runScenario(sc, ecsCount, noECSCount)
@@ -1169,7 +1524,7 @@ func runCase(r *hlib.Result, m *hlib.Model, sc *scenario, ecsCount, noECSCount i
 
 			return hasSig(oracle(s2, runScenario(s2, ecsCount, noECSCount), func(string) {}), v.sig)
 		})
-		s2 := &scenario{Geo: sc.Geo, Reqs: small}
+		s2 := &scenario{Geo: shrinkGeo(sc.Geo, small, ecsCount, noECSCount, v.sig), Reqs: small}
 		os2 := runScenario(s2, ecsCount, noECSCount)
 		what := v.what
 		for _, v2 := range oracle(s2, os2, func(string) {}) {
@@ -1254,7 +1609,9 @@ func main() {
 	r := hlib.NewResult("C05", o)
 	r.Rule = "random GeoIP tables and sequences of 2-30 requests (small pools of clients, questions, client ECS options: absent / valid / " +
 		"/0 / malformed / duplicated / second OPT RR) through the production handler stack with the ECS cache and a scripted recording upstream; " +
-		"every request is also sent through a cold twin; the oracle checks upstream privacy, opt-out, partition of scoped answers, ECS echo and " +
+		"GeoIP subnets come from a fixed pool or from a per-case pool of neighbours (one stem at several lengths, byte-aligned or not, and same-length siblings " +
+		"differing in one bit); a partition campaign (every client its own location, scoping upstream) and a sweep over every prefix length of both " +
+		"families (A asks, B asks, A, B for sibling / same-address-other-length / zero-prefix pairs); every request is also sent through a cold twin; the oracle checks upstream privacy, opt-out, partition of scoped answers, ECS echo and " +
 		"FORMERR on the recorded traffic; the same op lines go to the Lean model and outputs are compared; a case is non-trivial when it has " +
 		"at least one cache hit and one upstream exchange; distinct = distinct op texts"
 	m := hlib.StartModel(o.Model, "C05")
@@ -1273,6 +1630,12 @@ func main() {
 	for i := 0; i < n/5; i++ {
 		runCase(r, m, genScenario(rng, maxLen), 1+rng.IntN(3), 1+rng.IntN(3), false)
 	}
+	// Neighbouring GeoIP subnets, scoping upstream, few questions.
+	rng = o.Rand("partition")
+	for i := 0; i < n/4; i++ {
+		runCase(r, m, genPartitionScenario(rng), 10000, 10000, true)
+	}
+	prefixSweep(r, m, o.Thorough())
 	fixedCases(r, m)
 	unitCampaign(r, m)
 	if o.Thorough() {
